@@ -20,8 +20,14 @@ def gen_ids(rng, n, alphabet="abcdef0123456789", length=None, collide=False):
     return out
 
 
-def gen_history(rng, n, labels=True, deps=True, collide=False, max_parents=2, shuffle=True, p_root=0.15, p_merge=0.25):
-    ids = gen_ids(rng, n, collide=collide)
+def gen_history(rng, n, labels=True, deps=True, collide=False, max_parents=2, shuffle=True, p_root=0.15, p_merge=0.25, numeric=False):
+    if numeric:
+        # hand-numbered projects: 000, 001, 002 … (ids that Python's int() accepts)
+        width = rng.choice([1, 3, 4])
+        ids = ["%0*d" % (width, k) for k in ([0] + rng.sample(range(1, 60), n - 1) if n > 1 else [0])]
+        rng.shuffle(ids)
+    else:
+        ids = gen_ids(rng, n, collide=collide)
     hist = []
     used_labels = set()
     for i, rid in enumerate(ids):
